@@ -164,4 +164,49 @@ def distSqToAABB (e : V3) (vs : List V3) : Option Int :=
     some (dx * dx + dy * dy + dz * dz)
   | _, _, _ => none
 
+/-! ## point in a closed triangle mesh (any shape: convexity is *not* assumed)
+
+Used for pairs with a non-convex member, where separating axes cannot certify an overlap: a vertex of `A` lying
+strictly (by the margin) inside the solid bounded by the closed mesh `B` is a common point of `A` and the interior
+of `B`, so the volumes overlap.  Parity of the crossings of the vertical ray upwards from the point; every
+degenerate position (the point's projection on an edge or vertex of a projected triangle, the point within the
+margin of the plane of any face) makes the answer `none`. -/
+
+/-- orientation of `p` relative to the directed edge `a → b` in the xy-projection -/
+def orient2 (a b p : V3) : Int := (b.1 - a.1) * (p.2.1 - a.2.1) - (b.2.1 - a.2.1) * (p.1 - a.1)
+
+inductive Cross where
+  | hit | miss | degenerate
+deriving Repr, DecidableEq
+
+/-- does the ray `p + t (0,0,1)`, `t > 0`, cross the triangle `a b c`? -/
+def rayCross (p a b c : V3) : Cross :=
+  let o1 := orient2 a b p
+  let o2 := orient2 b c p
+  let o3 := orient2 c a p
+  if (o1 > 0 && o2 > 0 && o3 > 0) || (o1 < 0 && o2 < 0 && o3 < 0) then
+    -- strictly inside the projection (so `n_z ≠ 0`): the plane point above/below `p` is at height
+    -- `p_z - d / n_z` where `d = n · (p - a)`
+    let n := (b.sub a).cross (c.sub a)
+    let d := n.dot (p.sub a)
+    if d == 0 then .degenerate
+    else if (d > 0) != (n.2.2 > 0) then .hit else .miss
+  else if (o1 ≥ 0 && o2 ≥ 0 && o3 ≥ 0) || (o1 ≤ 0 && o2 ≤ 0 && o3 ≤ 0) then .degenerate
+  else .miss
+
+/-- `some true` = strictly inside the solid bounded by the closed mesh, at least the margin away from the plane of
+    every face; `some false` = outside with the same margin; `none` = undecided -/
+def pointInMesh (margin : Int) (m : Mesh) (p : V3) : Option Bool :=
+  let clearOfPlanes := m.planes.all fun h => h.2.isZero || (h.2.dot (p.sub h.1)).natAbs > margin * h.2.norm1
+  let cs := m.faces.map fun f => rayCross p (m.vert f.1) (m.vert f.2.1) (m.vert f.2.2)
+  if !clearOfPlanes || cs.any (· == .degenerate) then none
+  else some ((cs.filter (· == .hit)).length % 2 == 1)
+
+/-- some of the points is certainly inside / all are certainly outside / undecided -/
+def pointsInMesh (margin : Int) (m : Mesh) (pts : List V3) : Side :=
+  let vs := pts.map (pointInMesh margin m)
+  if vs.any (· == some true) then .inside
+  else if vs.all (· == some false) then .outside
+  else .undecided
+
 end Scenic.Oracle
